@@ -171,7 +171,9 @@ fn run_conc(l: &[Sx]) -> Sx {
     let svc = l[3].clone();
     let clients: Vec<Sx> = l[4].as_list().unwrap()[1..].to_vec();
     let max_override: Option<usize> = l.get(5).and_then(|m| m.as_list()).and_then(|m| m.get(1)).and_then(|m| m.as_usize());
-    let stall_ms: u64 = 600;
+    // long enough that a peer which is merely slow (a loaded machine) is told apart from one that waited for the
+    // stalled peer to go on
+    let stall_ms: u64 = 1500;
     let has_stall = clients.iter().any(|c| matches!(c.as_list().unwrap()[1].as_atom(), Some("stall") | Some("flood")));
     let addr = fresh_addr(&transport);
     let stop = Arc::new(AtomicBool::new(false));
@@ -263,7 +265,7 @@ fn run_conc(l: &[Sx]) -> Sx {
                     }
                 }
                 first_reply_ms = Some(t_begin.elapsed().as_millis() as u64);
-                thread::sleep(Duration::from_millis(400));
+                thread::sleep(Duration::from_millis(1200));
             }
             if kind != "badhold" {
                 conn.shutdown_write();
@@ -296,7 +298,7 @@ fn run_conc(l: &[Sx]) -> Sx {
             if kind == "badhold" {
                 // a faulty peer that neither closes nor half-closes: it has seen the server give up on it
                 // (or not) and just keeps its socket for a while
-                thread::sleep(Duration::from_millis(stall_ms * 2));
+                thread::sleep(Duration::from_millis(2000));
             }
             (closed, got, first_reply_ms.unwrap_or(t_begin.elapsed().as_millis() as u64))
         }));
@@ -309,8 +311,10 @@ fn run_conc(l: &[Sx]) -> Sx {
         // while another peer is stalled in the middle of a message, a prompt peer must not wait for it
         // (`hold` peers report the time to their FIRST reply: with free workers below the limit nobody
         // waits for another connection to finish)
-        let late = (has_stall && (kind == "half" || kind == "dropmid") && elapsed > stall_ms * 2 / 3)
-            || (kind == "hold" && elapsed > 250);
+        // (a peer that had to wait for the stalled one is done only after it went on, one that had to wait for a
+        // long-lived one gets its first reply only after 1.2 s: the thresholds leave a second for a loaded machine)
+        let late = (has_stall && (kind == "half" || kind == "dropmid") && elapsed > stall_ms - 400)
+            || (kind == "hold" && elapsed > 900);
         let total: Vec<u8> = cl[3].as_list().unwrap()[1..].iter().flat_map(|x| x.as_bytes().unwrap()).collect();
         let (replies, up) = split_up(&got);
         obs.push(sx::tagged(
